@@ -3,10 +3,9 @@ use cbor_event::de::Deserializer;
 use cbor_event::se::Serializer;
 use cbor_event::Serialize;
 use crate::{BootstrapWitnesses, CBORReadLen, DeserializeError, DeserializeFailure, Key, Language, NativeScripts, PlutusList, PlutusScripts, Redeemers, TransactionWitnessSet, Vkeywitnesses};
-use crate::protocol_types::{CBORSpecial, CBORType, Deserialize, opt64, TransactionWitnessSetRaw};
+use crate::protocol_types::{CBORSpecial, CBORType, Deserialize, TransactionWitnessSetRaw};
 use crate::serialization::utils::{deserilized_with_orig_bytes, merge_option_plutus_list};
 use crate::traits::NoneOrEmpty;
-use crate::utils::opt64_non_empty;
 
 impl cbor_event::se::Serialize for TransactionWitnessSet {
     fn serialize<'a, W: Write + Sized>(&self, serializer: &'a mut Serializer<W>) -> cbor_event::Result<&'a mut Serializer<W>> {
@@ -197,6 +196,19 @@ pub(super) fn deserialize<R: BufRead + Seek>(raw: &mut Deserializer<R>, with_raw
         .map_err(|e| e.annotate("TransactionWitnessSet"))
 }
 
+fn written_field_count<T: NoneOrEmpty>(field: &Option<T>, raw: Option<&Vec<u8>>) -> u64 {
+    match field {
+        Some(f) => {
+            if raw.is_some() || !f.is_none_or_empty() {
+                1
+            } else {
+                0
+            }
+        }
+        None => 0,
+    }
+}
+
 pub(super) fn serialize<'se, W: Write>(
     wit_set: &TransactionWitnessSet,
     raw_parts: Option<&TransactionWitnessSetRaw>,
@@ -214,12 +226,13 @@ pub(super) fn serialize<'se, W: Write>(
         },
         _ => 0,
     };
+    // a field is written iff it is present and either kept as original bytes or non-empty
     serializer.write_map(cbor_event::Len::Len(
-        opt64(&wit_set.vkeys)
-            + opt64_non_empty(&wit_set.native_scripts)
-            + opt64_non_empty(&wit_set.bootstraps)
-            + opt64_non_empty(&wit_set.plutus_data)
-            + opt64_non_empty(&wit_set.redeemers)
+        written_field_count(&wit_set.vkeys, raw_parts.map(|x| x.vkeys.as_ref()).flatten())
+            + written_field_count(&wit_set.native_scripts, raw_parts.map(|x| x.native_scripts.as_ref()).flatten())
+            + written_field_count(&wit_set.bootstraps, raw_parts.map(|x| x.bootstraps.as_ref()).flatten())
+            + written_field_count(&wit_set.plutus_data, raw_parts.map(|x| x.plutus_data.as_ref()).flatten())
+            + written_field_count(&wit_set.redeemers, raw_parts.map(|x| x.redeemers.as_ref()).flatten())
             + plutus_added_length,
     ))?;
     if let Some(field) = &wit_set.vkeys {
